@@ -317,6 +317,7 @@ def _table_order(col, rule="C08.R3"):
 
 def _regex(col, rule="C08.R5"):
     repo = col.repo
+    from .c14 import ctor_kwargs as c14_ctor_kwargs
     sx = tctx(repo, "_get_regexp_indices")
     flags = S.sattr("_regex_flags")
     matchers, bad = [], []
@@ -371,7 +372,7 @@ def _regex(col, rule="C08.R5"):
         rets = msx.of_kind("return")
         for r in rets:
             for a in S.alts(r.value):
-                if S.is_call_of(a) and dict(a[3]).get("regex_flags") == flags:
+                if S.is_call_of(a) and c14_ctor_kwargs(repo, a).get("regex_flags") == flags:
                     ok = True
         col.add(rule, f"Table.{meth}#flags-inherited", ok, msx.loc(msx.fn), "a derived table keeps the regex flags", "")
 
@@ -528,7 +529,33 @@ def _name_span_guards(col, rule="C08.R7"):
                     "a:b (or a:b:<index column>) resolves the names on the index column, a:b:'col' searches that column", str([S.show(c) for c in cs][:3]))
 
 
+def _empty_selection(col, rule="C08.R6"):
+    """an empty list selects no row: what is returned for it must be usable as an index array (integer dtype); numpy converts `[]` to
+    float64, which cannot index"""
+    sx, row, start, stop, step = _selector(col)
+    n = 0
+    for r in sx.of_kind("return"):
+        cs = sx.conds(r.nid)
+        empty = [c for c in cs if c[:1] == ("cmp",) and c[1] == "==" and c[3] == ("const", "0") and
+                 (S.is_call_of(c[2], ("glob", "len")) or (c[2][:1] == ("attr",) and c[2][2] == "size"))]
+        empty += [c for c in cs if c[:1] == ("empty",)]
+        if not empty:
+            continue
+        n += 1
+        bad = []
+        for a in S.alts(r.value):
+            conv = a == row or (S.is_call_of(a) and a[1][:1] == ("attr",) and a[1][2] in ("array", "asarray", "asanyarray") and a[2][:1] == (row,)
+                                and "dtype" not in dict(a[3]))
+            if conv:
+                bad.append(S.show(a)[:60])
+        col.add(rule, "Table._get_row_indices#empty-list-gives-an-integer-index", not bad, sx.loc(r),
+                "the empty selection is returned as an integer index array (not as the converted input: np.asarray([]) is float64)", "; ".join(bad))
+    col.count("empty_selection_returns", n)
+
+
 def check(col: Collector):
+    with col.rule():
+        _empty_selection(col)
     with col.rule():
         _name_span_guards(col)
     with col.rule():
